@@ -257,7 +257,7 @@ class ListFlow:
         out = []
         for e in lit.elts:
             if isinstance(e, ast.Starred):
-                out.append(("splice", strip_sites(self.ctx.terms.of(self.cfg, nid, e.value))))
+                out.extend(_splice_tokens(strip_sites(self.ctx.terms.of(self.cfg, nid, e.value))))
             else:
                 out.append(("elem", strip_sites(self.ctx.terms.of(self.cfg, nid, e))))
         return tuple(out)
@@ -293,7 +293,7 @@ class ListFlow:
                 if isinstance(y, (ast.List, ast.Tuple)):
                     res = self.literal_tokens(nid, y)
                 else:
-                    res = (("splice", strip_sites(T.of(self.cfg, nid, y))),)
+                    res = _splice_tokens(strip_sites(T.of(self.cfg, nid, y)))
             elif n.kind == "stmt" and meth == "insert" and len(call.args) == 2:
                 res = (("insert", strip_sites(T.of(self.cfg, nid, call.args[0])), strip_sites(T.of(self.cfg, nid, call.args[1]))),)
             elif (
@@ -307,7 +307,7 @@ class ListFlow:
                 if isinstance(a.value, (ast.List, ast.Tuple)):
                     res = self.literal_tokens(nid, a.value)
                 else:
-                    res = (("splice", strip_sites(T.of(self.cfg, nid, a.value))),)
+                    res = _splice_tokens(strip_sites(T.of(self.cfg, nid, a.value)))
             elif (
                 n.kind == "stmt"
                 and call is not None
@@ -419,6 +419,31 @@ def _creation_defs(du, nid: int, var: str) -> list:
             else:
                 out.append((dn, d))
     return out
+
+
+def _splice_tokens(t) -> tuple:
+    """What `lst.extend(<t>)` / `lst += <t>` adds: a display adds its elements; a comprehension over X adds one element per
+    item of X - the same thing as a loop of appends (the loop variable is ('iter', X), its unpacked parts ('sub', .., i))."""
+    from ..engine.terms import _bind_target, _subst_cvars
+
+    if t[0] in ("tuple", "list") and not any(x[0] == "star" for x in t[1]):
+        return tuple(("elem", x) for x in t[1])
+    if t[0] == "const" and isinstance(t[1], (tuple, list)) and all(isinstance(x, (str, bytes)) for x in t[1]):
+        return tuple(("elem", ("const", x)) for x in t[1])
+    if t[0] == "comp" and t[1] in ("ListComp", "GeneratorExp") and len(t[3]) == 1:
+        tgt, it, conds = t[3][0]
+        item = ("iter", it)
+        m: dict = {}
+        if tgt[0] == "cvar":
+            m[tgt[1]] = item
+        elif tgt[0] in ("tuple", "list") and all(x[0] == "cvar" for x in tgt[1]):
+            for i, x in enumerate(tgt[1]):
+                m[x[1]] = ("sub", item, ("const", i))
+        else:
+            return (("splice", t),)
+        body = (("elem", _subst_cvars(t[2], m)),)
+        return (("loop", frozenset({body, ()} if conds else {body})),)
+    return (("splice", t),)
 
 
 def list_sequences(ctx: Context, cfg, use_node, expr: ast.expr, benign=()) -> frozenset:
